@@ -167,6 +167,18 @@ def step (p : S) (line : String) : S × String :=
     ({ p with feats := p.feats.push F }, "ok")
   | ["mm", "end"] => (p, "ok")
   | "q" :: rest => (p, match query p rest with | some r => r | none => "bad-op")
+  | ["insertbad", x, f, _kind, v] =>
+    -- `insert(pos, v)` with a position that is no integer: the value is checked first (BadValueError), then the position
+    -- is refused (TypeError) — before anything is touched
+    match x.toNat?, f.toNat?, parseVal v with
+    | some x, some f, some v =>
+      let r := Store.step p.mm p.st (.insert x f 0 v)
+      let out := match r.2 with
+        | .error .attributeError => "err AttributeError"
+        | .error .badValue => "err BadValueError"
+        | _ => "err TypeError"
+      (p, out ++ " | " ++ dump p)
+    | _, _, _ => (p, "bad-op")
   | "cmd" :: rest =>
     let optInt (t : String) : Option (Option Int) := if t == "-" then some none else t.toInt?.map some
     let optVal (t : String) : Option (Option PyVal) := if t == "-" then some none else (parseVal t).map some
